@@ -23,6 +23,7 @@ def outcomeName : Remove.Outcome → String
   | .failed .notFound => "NotFound"
   | .failed .cycle => "Cycle"
   | .failed .outOfFuel => "Recursion"
+  | .failed .tableError => "TableError"
 
 def pairJson (p : Str × Str) : Json := Json.arr #[ofStr p.1, ofStr p.2]
 
